@@ -20,6 +20,7 @@ pub struct Plan {
     pub step_cap: u64,
     pub widths: Vec<Width>,
     pub w_full: bool,
+    pub n_depth: usize,
 }
 
 pub fn plan(tier: Tier, backend: Backend) -> Plan {
@@ -36,6 +37,7 @@ pub fn plan(tier: Tier, backend: Backend) -> Plan {
             step_cap: 20_000,
             widths: vec![Width::W8, Width::W64],
             w_full: false,
+            n_depth: if backend == Backend::IrInt || backend == Backend::Inplace { 5 } else { 4 },
         },
         Tier::Thorough => Plan {
             a_len: 8 + extra,
@@ -48,6 +50,7 @@ pub fn plan(tier: Tier, backend: Backend) -> Plan {
             step_cap: 100_000,
             widths: Width::ALL.to_vec(),
             w_full: true,
+            n_depth: 5,
         },
     }
 }
@@ -103,7 +106,7 @@ pub fn enumerate(p: &Plan, f: &mut dyn FnMut(u64, &'static str, &[u8])) -> u64 {
         base += 1;
     }
     let n0 = base;
-    base += spaces::space_n(p.w_full, &mut |i, c| f(n0 + i, "N", c));
+    base += spaces::space_n(p.w_full, p.n_depth, &mut |i, c| f(n0 + i, "N", c));
     for (_, c) in spaces::space_k() {
         f(base, "K", &c);
         base += 1;
@@ -305,7 +308,7 @@ pub fn info(tier: Tier, prop: &'static str, backend: Backend) -> CheckInfo {
              <= {} statements inside 4 loop shapes, 3 initialisations){}, W (k-cell rotations with per-cell forms copy/x2/x3/negate/ \
              shared/shared+const/+const/div3/product/wide constant: default, every single deviation, uniform and alternating \
              assignments{}), V (an input byte shifted left by 4k bits, k up to 16, used as loop/branch condition; optimising \
-             configurations only, accelerated reference), N (a loop whose body is every sequence of <= 5 tokens from moves, scans \
+             configurations only, accelerated reference), N (a loop whose body is every sequence of <= {} tokens from moves, scans \
              [>] [<], stationary loops [] [-], + and . that contains a scan, 3 prefixes, with and without a final output) and the \
              repository corpus K. For each program and width the input choice tree \
              is explored on demand (alphabet {{0,1,2,128,255}} then end of input, depth {}; depth {} for S; fixed scripts of distinct \
@@ -324,6 +327,7 @@ pub fn info(tier: Tier, prop: &'static str, backend: Backend) -> CheckInfo {
                 _ => "",
             },
             if p.w_full { ", every pair of deviations, k in {2,3,5,8,10..16}" } else { ", k in {2,3,11,12,13,14}" },
+            p.n_depth,
             p.depth,
             p.s_depth,
             p.step_cap,
